@@ -1,0 +1,30 @@
+//go:build verif
+// +build verif
+
+package service
+
+import (
+	"net/http"
+
+	"github.com/kubewharf/kubebrain/pkg/server/service/etcdproxy"
+	"github.com/kubewharf/kubebrain/pkg/server/service/revision"
+)
+
+// SetPeerTransportForSim replaces the HTTP transport of the peer service's revision syncer.
+func SetPeerTransportForSim(p PeerService, rt http.RoundTripper) bool {
+	ps, ok := p.(*peerService)
+	if !ok {
+		return false
+	}
+	return revision.SetRoundTripperForSim(ps.RevisionSyncer, rt)
+}
+
+// SetEtcdProxyForSim replaces the etcd proxy (the real one dials the leader with clientv3).
+func SetEtcdProxyForSim(p PeerService, proxy etcdproxy.EtcdProxy) bool {
+	ps, ok := p.(*peerService)
+	if !ok {
+		return false
+	}
+	ps.EtcdProxy = proxy
+	return true
+}
